@@ -16,25 +16,35 @@ Definition spec_pred {C} (eqb : C -> C -> bool) (pd : pred_spec) : nat -> list C
   | PUfp => fun i s t => (S i, snd (until_fixed_point eqb tt s t))
   end.
 
+(* rule families of this check: those of Model/Rules.v, and one more pure family that creeps to a
+   ceiling - every cell becomes min(max(neighbourhood, 0) + 1, cap) - used for the float automata whose
+   states are base + j * 2^-40 (the model works on the integers j; the rescaling is injective) *)
+Inductive rspec := RS (sp : rule_spec) | RCap (cap : Z).
+Definition capinc (cap : Z) (vals : list Z) : Z := Z.min (fold_right Z.max 0%Z vals + 1)%Z cap.
+Definition rspec_rule1 (rs : rspec) : rule1 nat :=
+  match rs with RS sp => spec_rule1 sp | RCap cap => fun i n c t => (S i, capinc cap n) end.
+Definition rspec_rule2 (rs : rspec) : rule2 nat :=
+  match rs with RS sp => spec_rule2 sp | RCap cap => fun i n c t => (S i, capinc cap (unmasked n)) end.
+
 Definition plog1 := list (list (list Z) * nat).
 Definition plog2 := list (list grid * nat).
 
 Inductive case :=
-| C1 (sp : rule_spec) (r : nat) (hist : list (list Z)) (pd : pred_spec)
+| C1 (sp : rspec) (r : nat) (hist : list (list Z)) (pd : pred_spec)
      (obs : res (list (list Z) * plog1))
-| C2 (sp : rule_spec) (r : nat) (ty : nbhd_type) (hist : list grid) (pd : pred_spec)
+| C2 (sp : rspec) (r : nat) (ty : nbhd_type) (hist : list grid) (pd : pred_spec)
      (obs : res (list grid * plog2)).
 
 Definition fuel := 64.
 
-Definition model1 (sp : rule_spec) (r : nat) (hist : list (list Z)) (pd : pred_spec) : option (list (list Z) * plog1) :=
-  match evolve_plain_dynamic (spec_rule1 sp) store_id (spec_pred zlist_eqb pd) r fuel 0 0 hist with
+Definition model1 (sp : rspec) (r : nat) (hist : list (list Z)) (pd : pred_spec) : option (list (list Z) * plog1) :=
+  match evolve_plain_dynamic (rspec_rule1 sp) store_id (spec_pred zlist_eqb pd) r fuel 0 0 hist with
   | Some (_, _, out, plog) => Some (out, plog)
   | None => None
   end.
 
-Definition model2 (sp : rule_spec) (r : nat) (ty : nbhd_type) (hist : list grid) (pd : pred_spec) : option (list grid * plog2) :=
-  match evolve2d_plain_dynamic (spec_rule2 sp) store_id (spec_pred zgrid_eqb pd) r ty fuel 0 0 hist with
+Definition model2 (sp : rspec) (r : nat) (ty : nbhd_type) (hist : list grid) (pd : pred_spec) : option (list grid * plog2) :=
+  match evolve2d_plain_dynamic (rspec_rule2 sp) store_id (spec_pred zgrid_eqb pd) r ty fuel 0 0 hist with
   | Some (_, _, out, plog) => Some (out, plog)
   | None => None
   end.
